@@ -242,6 +242,8 @@ def gen_auth(rng, n_records, sweep_stride=1, kts=KT_ALL):
     out = []
     for r in range(n_records):
         rec = rand_record(rng, scheme="ed" if r % 3 == 2 else "secp")     # both schemes in every run
+        if r % 5 == 1:
+            rec["seq"] = []                                                 # sequence number 0: its encoding is the single byte 80
         other = rand_record(rng, signer=rec["by"])
         base = recspec(rec)
         steps = [{"op": "decode", "kts": kts, "input": base, "tag": "valid"}]
@@ -305,8 +307,15 @@ def gen_auth(rng, n_records, sweep_stride=1, kts=KT_ALL):
             for tw in ["highs", "zero_r", "zero_s", "r_n", "s_n"]:
                 tam.append((tw, recspec(rec, sig={"tweak": tw})))
         tam.append(("random_sig", recspec(rec, sig={"raw": rand_bytes(rng, 64)})))
+        if rec["seq"] == []:
+            it0 = items_of(rec)
+            tam.append(("seq_zero_written_as_00", {"rec": {"items": [{"x": [0]}] + it0[1:], "sig": {"by": rec["by"], "over": it0}}}))
         for tag, spec in tam:
             steps.append({"op": "decode", "kts": kts, "input": spec, "tag": tag})
+        # the same tampers through the text and JSON entry points
+        for tag, spec in rng.sample(tam, 5) + [t for t in tam if t[0] in ("wrong_key", "signed_other_seq", "highs")][:2]:
+            steps.append({"op": "from_str", "kts": kts, "text": {"b64": spec, "prefix": cps("enr:")}, "tag": "text_" + tag})
+            steps.append({"op": "from_json", "kts": kts, "quote": True, "text": {"b64": spec, "prefix": cps("enr:")}, "tag": "json_" + tag})
         # byte edits
         for _ in range(12):
             steps.append({"op": "decode", "kts": kts, "tag": "edit",
@@ -515,7 +524,8 @@ def gen_prefix(rng, n, kts=KT_ALL):
         steps = []
         mini_signer = rng.choice(SECP_SIGNERS + ED_SIGNERS)
         mini = {"seq": rng.choice([[], [1], [200]]), "pairs": rand_pairs(rng, mini_signer, extra_reserved=False, max_custom=0), "by": mini_signer}
-        cands = [("valid", recspec(rec)), ("valid_minimal", recspec(mini))] + [m for m in rng.sample(muts, 6) if "raw" not in m[1]]
+        cands = [("valid", recspec(rec)), ("valid_minimal", recspec(mini)), ("empty_list", {"raw": [0xc0]}), ("one_byte", {"raw": [5]}),
+                 ("short_string", {"raw": [0x83, 1, 2, 3]})] + [m for m in rng.sample(muts, 6) if "raw" not in m[1]]
         for tag, spec in cands:
             for sn in rng.sample([1, 2, 3, 4, 5, 50, 166, 167, 200, 300, 1000], 4):
                 kind = rng.choice(["zeros", "random", "record", "truncated"])
@@ -546,6 +556,15 @@ def gen_prefix(rng, n, kts=KT_ALL):
             bad[j] = m
             steps.append({"op": "decode_stream", "kt": kt, "input": {"concat": bad}, "tag": "stream_bad_%s" % tag})
             steps.append({"op": "decode_list", "kt": kt, "input": {"list": bad}, "tag": "list_bad_%s" % tag})
+            if kt == "comb":
+                er = rand_record(rng, signer="e1")
+                sr = rand_record(rng, signer="k1")
+                sr["pairs"] = sorted([p for p in sr["pairs"] if bytes(p[0]) != b"ed25519"] + [[B("ed25519"), enc_str(KEYS["e2"]["pk"])]], key=lambda p: bytes(p[0]))
+                if rec_len(sr["seq"], sr["pairs"]) <= 300:
+                    steps.append({"op": "decode_stream", "kt": kt, "input": {"concat": [recspec(er), recspec(sr), recspec(er)]}, "tag": "stream_ed_then_secp_with_ed_entry"})
+                    steps.append({"op": "decode_list", "kt": kt, "input": {"list": [recspec(er), recspec(sr)]}, "tag": "list_ed_then_secp_with_ed_entry"})
+                    steps.append({"op": "decode", "kts": [kt], "input": recspec(er), "tag": "valid"})
+                    steps.append({"op": "decode", "kts": [kt], "input": recspec(sr), "tag": "valid_after_other_scheme"})
             # a tampered copy (other value, same sequence number and signature) right after its original
             base = recs[0]
             cp = [list(p) for p in base["pairs"]] + [[B("zzt"), enc_str([7])]]
@@ -1167,6 +1186,8 @@ def gen_nid(rng, n_random):
     sid = Sid("nid")
     N = 0xFFFFFFFFFFFFFFFFFFFFFFFFFFFFFFFEBAAEDCE6AF48A03BBFD25E8CD0364141
     scal = [1, 2, 3, N - 1, N - 2, 2 ** 255, 2 ** 128, N // 2, N // 2 + 1] + [rng.randrange(1, N) for _ in range(n_random)]
+    # keys whose x coordinate starts with 00 / 02 / 03 / 04 / 06 / 07 / ff (bytes that look like SEC1 tags or padding)
+    scal += [int(h, 16) for h in KEYS.get("special_x", {}).values()]
     out = []
     steps = []
     for v in scal:
